@@ -457,7 +457,13 @@ func analyse(gs *GroupScan, g *GroupCfg, rec *ScanRecord) *Analysis {
 			}
 		}
 	}
-	a.Clean = a.AllAcked && !gs.Faulted && !rec.Outcome.EndsLifetime() && a.Kind != kListErr
+	preFaulted := false
+	for _, c := range rec.Pre {
+		if c.Fault != "" || c.Err != "" {
+			preFaulted = true // a fault in the refresh path leaves every group with a possibly stale cloud view
+		}
+	}
+	a.Clean = a.AllAcked && !gs.Faulted && !preFaulted && !rec.Outcome.EndsLifetime() && a.Kind != kListErr
 	a.StateHash = a.hash(gs, g)
 	return a
 }
